@@ -1,0 +1,52 @@
+//! Verification hook (feature `verif-hooks` only): a movable clock for the
+//! validator.
+//!
+//! The validator reads the wall clock (`Timestamp::now()`) to check
+//! signature validity periods and a monotonic clock (`std::time::Instant`)
+//! to age its cached nodes. A model-checking harness that wants to explore
+//! histories in which time passes on one long-lived `ValidationContext`
+//! cannot wait for real time. With this module both readings are shifted
+//! forward by a per-thread offset the harness sets; with an offset of zero
+//! (the default) the readings are the real ones. Without the feature the
+//! module does not exist and nothing changes.
+
+use crate::rdata::dnssec::Timestamp;
+use core::cell::Cell;
+use core::time::Duration;
+
+std::thread_local! {
+    static OFFSET_SECS: Cell<u64> = const { Cell::new(0) };
+}
+
+/// Sets the number of seconds the validator's clocks of this thread run
+/// ahead of the real ones.
+pub fn set_offset_secs(secs: u64) {
+    OFFSET_SECS.with(|o| o.set(secs))
+}
+
+/// Returns the current offset of this thread.
+pub fn offset_secs() -> u64 {
+    OFFSET_SECS.with(|o| o.get())
+}
+
+/// Shifts a wall-clock reading by the offset.
+pub fn shift_timestamp(real: Timestamp) -> Timestamp {
+    Timestamp::from(real.into_int().wrapping_add(offset_secs() as u32))
+}
+
+/// Stand-in for `std::time::Instant` with the subset of its API the
+/// validator uses.
+#[derive(Clone, Copy, Debug, Eq, Ord, PartialEq, PartialOrd)]
+pub struct Instant(std::time::Instant);
+
+impl Instant {
+    /// The real monotonic clock plus the offset.
+    pub fn now() -> Self {
+        Instant(std::time::Instant::now() + Duration::from_secs(offset_secs()))
+    }
+
+    /// Time passed since this instant on the shifted clock.
+    pub fn elapsed(&self) -> Duration {
+        Self::now().0.saturating_duration_since(self.0)
+    }
+}
